@@ -143,3 +143,18 @@ func VerifC20SnapshotLinear(tmpl string) {
 		verif.Event("overhead", k, s.slack[k])
 	}
 }
+
+// VerifC20SnapshotCost: the cost of computing a rule's snapshot is linear in the rule's text. The listener computes the
+// snapshot of every node it closes, so a node kind that computes a child's snapshot twice makes loading exponential in
+// the nesting depth even when the resulting text is unchanged. Concrete deep chains of every nesting construct of the
+// grammar; cost = SSA instructions under gosym (natively: time, see verif.Cost).
+func VerifC20SnapshotCost(tmpl string) {
+	lib := zzkb.LoadLibrary(tmpl)
+	kb := lib.GetKnowledgeBase("T", "1")
+	names := sortedRuleNames(kb)
+	re := kb.RuleEntries[names[verif.Choice("rule", len(names))]]
+	steps := verif.Cost(func() { _ = re.GetSnapshot() })
+	verif.Reach("c20:snapshot-cost-measured")
+	verif.Event("snapshot-cost", re.RuleName, len(re.GrlText))
+	verif.Assert("C20:snapshot-cost-linear:"+re.RuleDescription, steps <= 600*len(re.GrlText))
+}
